@@ -500,10 +500,116 @@ type fnRun struct {
 	insts    func(t *PTy, v px.Value) bool
 }
 
+// aliasesCyclic: some local type refers to itself, directly or through other local types
+func aliasesCyclic(aliases []Alias) bool {
+	defs := map[string]*PTy{}
+	for _, a := range aliases {
+		defs[a.Name] = a.T
+	}
+	state := map[string]int{} // 1 = in progress, 2 = done
+	var refs func(t *PTy, f func(n string) bool) bool
+	refs = func(t *PTy, f func(n string) bool) bool {
+		if t.K == "Ref" {
+			return f(t.Name)
+		}
+		for _, x := range t.Ts {
+			if refs(x, f) {
+				return true
+			}
+		}
+		return false
+	}
+	var visit func(n string) bool
+	visit = func(n string) bool {
+		d, ok := defs[n]
+		if !ok {
+			return false
+		}
+		switch state[n] {
+		case 1:
+			return true
+		case 2:
+			return false
+		}
+		state[n] = 1
+		r := refs(d, visit)
+		state[n] = 2
+		return r
+	}
+	for _, a := range aliases {
+		if visit(a.Name) {
+			return true
+		}
+	}
+	return false
+}
+
+// instFor is the harness' own reading of "value v is an instance of the declared type t" for a function with the given
+// local types: the local names stand for their definitions, in whatever order they are declared.  Without recursion the
+// names are replaced textually and the implementation's instance-of decides on the closed type; with recursive local
+// types the composite types (Optional, Variant, Array, local names) are read structurally by the harness and the
+// implementation's instance-of decides on the leaves only.  The generators only make recursion that passes through an
+// Array, so the structural reading is well-founded on the value.
 func (e *env) instFor(aliases []Alias) func(t *PTy, v px.Value) bool {
 	expand := map[string]*PTy{}
 	for _, a := range aliases {
 		expand[a.Name] = a.T
+	}
+	if aliasesCyclic(aliases) {
+		var rec func(t *PTy, v px.Value, depth int) bool
+		rec = func(t *PTy, v px.Value, depth int) bool {
+			if depth > 200 {
+				panic("instFor: recursion that does not consume the value")
+			}
+			switch t.K {
+			case "Ref":
+				d, ok := expand[t.Name]
+				if !ok {
+					return false // a name that stays unresolved has no instances
+				}
+				return rec(d, v, depth+1)
+			case "Optional":
+				if v == px.Undef {
+					return true
+				}
+				return rec(t.Ts[0], v, depth+1)
+			case "Variant":
+				for _, m := range t.Ts {
+					if rec(m, v, depth+1) {
+						return true
+					}
+				}
+				return false
+			case "Array":
+				a, ok := v.(*types.Array)
+				if !ok {
+					return false
+				}
+				n := int64(a.Len())
+				if t.Lo != nil && n < *t.Lo || t.Hi != nil && n > *t.Hi {
+					return false
+				}
+				for i := 0; i < a.Len(); i++ {
+					if !rec(t.Ts[0], a.At(i), depth+1) {
+						return false
+					}
+				}
+				return true
+			}
+			r, _ := isInst(e.parse(t.Src(nil)), v)
+			return r
+		}
+		return func(t *PTy, v px.Value) (r bool) {
+			defer func() {
+				if x := recover(); x != nil {
+					if s, ok := x.(string); ok && strings.HasPrefix(s, "instFor:") {
+						panic(x)
+					}
+					r = false
+				}
+			}()
+			return rec(t, v, 0)
+		}
 	}
 	return func(t *PTy, v px.Value) (r bool) {
 		defer func() {
